@@ -300,8 +300,47 @@ def probe_signals(rnd, c, n=4):
     return [["send", c, 4, rnd.choice(PATHS + ["/ab/c", "/a/bc", "/org"]), rnd.choice(IFACES), rnd.choice(MEMBERS), None, gen_args(rnd)] for _ in range(n)]
 
 
+def hole_pair(rnd):
+    """(text without the empty slot, text with it, N, M or None, value of argM)"""
+    pre = rnd.choice(("", "", "type='signal',", "member='M',", "interface='a.b',", "path_namespace='/a',"))
+    kn = rnd.choice(("", "", "path"))
+    if rnd.random() < 0.8:
+        m = rnd.choice((1, 2, 3, 5))
+        n = rnd.randrange(m)
+        km = rnd.choice(("", "", "path"))
+        vm = rnd.choice(("x", "x", "", "/a/"))
+        hi = "arg%d%s='%s'" % (m, km, vm)
+        lo = "arg%d%s=''" % (n, kn)
+        with_ = rnd.choice((lo + "," + hi, hi + "," + lo))
+        return pre + hi, pre + with_, n, m, vm
+    n = rnd.choice((0, 1, 2))
+    return (pre.rstrip(","), pre + "arg%d%s=''" % (n, kn), n, None, None)
+
+
+def gen_hole_pairs():
+    """systematic rule pairs for the `equal` leg: presence / absence / kind of an empty-valued slot"""
+    out = []
+    for pre in ("", "type='signal',", "member='M',"):
+        for m in (1, 2, 3, 5):
+            for km in ("", "path"):
+                for vm in ("x", "", "/a/"):
+                    hi = "arg%d%s='%s'" % (m, km, vm)
+                    for n in range(m):
+                        for kn in ("", "path"):
+                            lo = "arg%d%s=''" % (n, kn)
+                            a, b = pre + hi, pre + lo + "," + hi
+                            out += [(a, b), (b, a), (b, pre + hi + "," + lo), (b, pre + "arg%d%s=''," % (n, "path" if kn == "" else "") + hi),
+                                    (b, pre + "arg%d%s='y'," % (n, kn) + hi)]
+        for n in (0, 1, 2, 63):
+            for kn in ("", "path"):
+                lo = "arg%d%s=''" % (n, kn)
+                out += [(pre.rstrip(","), pre + lo), (pre + lo, pre.rstrip(",")), (pre + lo, pre + lo),
+                        (pre + lo, pre + "arg%d%s=''" % (n + 1 if n < 63 else 62, kn))]
+    return out
+
+
 def gen_directed(rnd):
-    fam = rnd.choice(("pns", "dups", "limit", "peer", "eaves", "fault", "pools", "quoting"))
+    fam = rnd.choice(("pns", "dups", "limit", "peer", "eaves", "fault", "pools", "quoting", "holes", "holes"))
     ev = [["hello", 1], ["hello", 2], ["hello", 3]]
     limit = 512
     if fam == "pns":
@@ -316,6 +355,29 @@ def gen_directed(rnd):
             ev.append(["send", 2, 4, p, "a.b", "M", None, []])
         ev.append(["rm", 1, "path_namespace='%s'%s" % (rnd.choice(vals), extra)])
         ev += probe_signals(rnd, 3, 3)
+    elif fam == "holes":
+        # near-equal rules: an EMPTY-valued argN / argNpath slot present in one, absent in the other, below a
+        # higher argM that both share (args_len equal) or as the highest slot (args_len differs); removal of
+        # the rule that is not held must fail and must leave the held one in place
+        r1, r2, n, m, vm = hole_pair(rnd)
+        held, other = (r1, r2) if rnd.random() < 0.5 else (r2, r1)
+        both = rnd.random() < 0.35
+        ev.append(["add", 1, held])
+        if both:
+            ev.append(["add", 1, other])
+        probes = []
+        for an in ("", "foo"):
+            args = [["s", "pad"] for _ in range(max(n, m if m is not None else -1) + 1)]
+            args[n] = ["s", an]
+            if m is not None:
+                args[m] = ["s", vm]
+            probes.append(["send", 2, 4, "/a", "a.b", "M", None, args])
+        ev += probes
+        ev.append(["rm", 1, other])
+        ev += probes
+        ev.append(["rm", 1, held])
+        ev += probes
+        ev.append(["rm", 1, held])
     elif fam == "dups":
         items = gen_items(rnd, fault_ok=False, eaves_ok=False)
         n = rnd.choice((2, 3))
